@@ -30,6 +30,6 @@ package key
 
 //@ func CastSSHPublicKeyToAgentKey(key)
 //@   requires key != nil
-//@   ensures result != nil
 //@   ensures typeof(key) == *agent.Key ==> result == key.(*agent.Key)
+//@   ensures typeof(key) != *agent.Key ==> result != nil
 //@   ensures typeof(key) != *agent.Key ==> (fresh(result) && contentOf(elems(result.Blob), off(result.Blob), len(result.Blob)) == blobid(key))
